@@ -23,8 +23,8 @@ import (
 func DocJSON(i int, variant int) string {
 	base := fmt.Sprintf(`{"id":%d,"name":"t%dzq","n":%d,"nums":[%d,2,3,%d],"s":["b%d","a%d","c%d"],`+
 		`"one":{"k":"v%d"},"items":[{"p":"x%dz1","q":%d},{"p":"y%dz2","q":%d}],`+
-		`"nest":{"c":"z%dXq"},"txt":" a  b%d "`,
-		i, i, i+1, i, i+10, i, i, i, i, i, i, i, i+1, i, i)
+		`"nest":{"c":"z%dXq"},"txt":" a  b%d ","dups":["a","a","b%d","a","c","b%d"]`,
+		i, i, i+1, i, i+10, i, i, i, i, i, i, i, i+1, i, i, i, i)
 	switch variant % 3 {
 	case 1:
 		base += `,"nil":null,"e":{},"ea":[],"metas":[{},{"a":1},{}]`
@@ -109,6 +109,22 @@ func (g *Gen) Str(d int) string {
 		func(d int) string { return `(` + g.Str(d) + ` ~> $substringBefore("z"))` },
 		func(d int) string { return `$substringBefore(?, "z")(` + g.Str(d) + `)` },
 		func(d int) string { return `($p := $pad(?, 8, "-"); $p(` + g.Str(d) + `))` },
+		// a built-in's name rebound locally, depending on the input
+		func(d int) string {
+			return `($uppercase := n > 1 ? function($x){"<" & $x & ">"} : $uppercase; $uppercase(` + g.Str(d) + `))`
+		},
+		func(d int) string {
+			return `($string := id = 0 ? $string : function($x){"s" & $length($x)}; $string(` + g.Str(d) + `))`
+		},
+		func(d int) string { return `function($trim, $v){$trim($v)}(n > 2 ? $uppercase : $trim, ` + g.Str(d) + `)` },
+		// a partial application that outlives the block in which it was made
+		func(d int) string { return `(($q := n + 5; $pad(?, $q, "-")))(` + g.Str(d) + `)` },
+		func(d int) string { return `($p := ($k := one.k; $replace(?, "z", $k)); ($k := "other"; $p(` + g.Str(d) + `)))` },
+		// a variable read before (or without) being bound in this evaluation,
+		// with assignments outside any block
+		func(d int) string { return `[$exists($u) ? "stale" : "fresh", $u := ` + g.Str(d) + `][0]` },
+		func(d int) string { return `$join([$string($exists($w)), $w := n > 1 ? name : nosuch], "/")` },
+		func(d int) string { return `(n > 1 ? $t := "a" : $t2 := "b") & $string($exists($t)) & $string($exists($t2))` },
 		// partial applications whose bound arguments depend on the input
 		func(d int) string { return `$substring(?, 0, n)(` + g.Str(d) + `)` },
 		func(d int) string { return `($p := $pad(?, n + 5, "-"); $p(` + g.Str(d) + `))` },
@@ -223,6 +239,9 @@ func (g *Gen) ArrS(d int) string {
 		func(d int) string { return `$map(` + g.ArrS(d) + `, $uppercase)` },
 		func(d int) string { return `$map(` + g.ArrS(d) + `, $substring(?, 1))` },
 		func(d int) string { return `$map(` + g.ArrS(d) + `, $substring(?, 0, n))` },
+		func(d int) string { return `$map(` + g.ArrS(d) + `, ($k := n; $substring(?, 0, $k)))` },
+		func(d int) string { return `$distinct(` + g.pick("dups", "$append(dups, s)", "items.p") + `)` },
+		func(d int) string { return `$distinct($append(` + g.ArrS(d) + `, dups))` },
 		func(d int) string { return `$map(` + g.ArrS(d) + `, $pad(?, n + 3, one.k))` },
 		func(d int) string { return `$map(` + g.ArrS(d) + `, function($v,$i){$v & $string($i)})` },
 		func(d int) string { return `$map(` + g.ArrN(d) + `, $string)` },
@@ -503,6 +522,21 @@ var Catalogue = []Program{
 	{`$formatNumber(0.25, "0%", {"percent": "pc"})`, "str"},
 	{`$formatNumber(12, "#0", {"zero-digit": "٠"})`, "str"},
 	{`$formatNumber(12, "#0")`, "str"},
+	{`$formatNumber(-7.5, "0.0")`, "str"},
+	{`$formatNumber(-7.5, "0.0", {"minus-sign": "~"})`, "str"},
+	{`$formatNumber(-8, "000", {"minus-sign": "m"})`, "str"},
+	{`$formatNumber(-8, "000")`, "str"},
+	{`$formatNumber(0.005, "0‰")`, "str"},
+	{`$formatNumber(0.005, "0‰", {"per-mille": "pm"})`, "str"},
+	{`$formatNumber(1234.5, "#,##0.0", {"grouping-separator": "'"})`, "str"},
+	{`$formatNumber(1234.5, "#,##0.0", {"decimal-separator": "·"})`, "str"},
+	{`$formatNumber(1234.5, "#,##0.0")`, "str"},
+	{`$formatNumber(5, "0;n0", {"pattern-separator": "|"})`, "fail"},
+	{`$formatNumber(-5, "0|n0", {"pattern-separator": "|"})`, "str"},
+	{`$formatNumber(-5, "0;n0")`, "str"},
+	{`$formatNumber(42, "##@", {"digit": "@"})`, "fail"},
+	{`$formatNumber(42, "@@0", {"digit": "@"})`, "str"},
+	{`$formatNumber(42, "##0")`, "str"},
 	{`$fromMillis(1510067557121, "[Y0001]-[M01]-[D01]")`, "str"},
 	{`$fromMillis(1510067557121, "[Y0001]-[M01]-[D01]", "+0530")`, "str"},
 	{`$fromMillis(1510067557121, "[H01]:[m01] [Z]", "-0800")`, "str"},
